@@ -3,6 +3,8 @@ package props
 import (
 	"bytes"
 	"fmt"
+	"hash/fnv"
+	"math/rand"
 	"runtime/debug"
 	"sort"
 	"strings"
@@ -193,6 +195,9 @@ func compareRuns(res *fw.Result, key string, p *Program, lib, mod runOut, checkC
 	ok := true
 	fail := func(class, msg string) {
 		ok = false
+		if lastLayout != "canonical" {
+			msg += "; layout: " + lastLayout
+		}
 		res.Fail(class, key, msg, p.describe())
 	}
 	if lib.pan != nil {
@@ -226,9 +231,55 @@ func sortedKeys(m map[string]int64) []string {
 	return ks
 }
 
+// lastLayout names the spelling policy of the case in progress (for failure messages).
+var lastLayout = "canonical"
+
+// layoutPolicy is a seeded random layout: any white space between tokens, none where that is possible, either
+// quote, trailing commas, trim markers where there is nothing to trim.
+type layoutPolicy struct {
+	r     *rand.Rand
+	quote byte
+	comma bool
+	trim  bool
+}
+
+func (v *layoutPolicy) WS(prev, next string, mayBeEmpty bool) string {
+	ws := []string{"", "", " ", "  ", "\n", "\t", "\r\n", " \n\t "}[v.r.Intn(8)]
+	if ws == "" && !mayBeEmpty {
+		return " "
+	}
+	return ws
+}
+func (v *layoutPolicy) Quote() byte         { return v.quote }
+func (v *layoutPolicy) TrailingComma() bool { return v.comma }
+func (v *layoutPolicy) Trim() bool          { return v.trim }
+
+func layoutFor(key string) (gen.Policy, string) {
+	h := fnv.New64a()
+	h.Write([]byte(key))
+	x := h.Sum64()
+	switch (x >> 3) % 8 {
+	case 0, 1, 2, 3:
+		return gen.Canon{}, "canonical"
+	case 4:
+		return gen.Tight{}, "tight (no blank that can be left out)"
+	case 5:
+		return gen.Wide{}, "wide (a line break between any two tokens)"
+	}
+	r := rand.New(rand.NewSource(int64(x)))
+	return &layoutPolicy{r: r, quote: []byte{'\'', '"'}[r.Intn(2)], comma: r.Intn(2) == 0, trim: r.Intn(4) == 0}, fmt.Sprintf("random layout %x", x)
+}
+
 // modelCase runs a program through the model and the library and compares. It
 // returns false when the model refused the program (out of region).
 func modelCase(res *fw.Result, key string, prog *Program, pol gen.Policy, checkCalls bool) (lib, mod runOut, ok bool) {
+	if _, canon := pol.(gen.Canon); canon {
+		// a caller without an opinion on the layout gets one of four, decided by the case: what a template means
+		// does not depend on how it is laid out (C14), so every model-based check may as well see all layouts
+		pol, lastLayout = layoutFor(key)
+	} else {
+		lastLayout = fmt.Sprintf("%T", pol)
+	}
 	mod, steps, inRegion, why := runModel(prog)
 	if !inRegion {
 		res.AddObs("out_of_region_rejected", 1)
